@@ -41,7 +41,9 @@ func init() {
 }
 
 var c20Evil = []string{"../evil", "../../evil", "/abs/evil", "a/../../evil", "..", ".", "", "a/b/../../../evil", "evil\x00name", strings.Repeat("L", 300), "dir/", "dir/../../evil/", "existing.txt",
-	"..\\evil", "C:\\evil", "./../evil", "a/./../../evil", "//double//evil", "a/../../../../../../../../tmp/verif-c20-escape", "normal.txt", "sub/dir/file.txt", "...", "..../evil", " ../evil", "../evil "}
+	"..\\evil", "C:\\evil", "./../evil", "a/./../../evil", "//double//evil", "a/../../../../../../../../tmp/verif-c20-escape", "normal.txt", "sub/dir/file.txt", "...", "..../evil", " ../evil", "../evil ",
+	// names built around the designated directory's own name ("chosen"): a sibling that shares its prefix
+	"../chosen-cache/payload.sh", "../chosen.sh", "../chosenX", "../chosen-cache/", "a/../../chosen2/evil"}
 
 // names and link targets out of which chains can form: each link looks harmless by its text (it names something
 // inside the directory), the escape only exists once an earlier link is followed
